@@ -1,0 +1,107 @@
+//go:build verif
+
+package jsonrpc2
+
+import (
+	"sort"
+	"sync/atomic"
+)
+
+// VerifEvent is one observation of the conn's critical sections (build tag verif only).
+//
+// Seq is a process-wide counter incremented while the lock protecting the observed
+// state is held, so events of different goroutines are totally ordered without clocks.
+type VerifEvent struct {
+	Seq     int64    // global order
+	Conn    Conn     // the connection the event belongs to
+	Ev      string   // "reg" | "wbeg" | "wend" | "disp" | "del"
+	Kind    string   // wbeg/wend: "call" | "notify" | "response"
+	ID      string   // %q form of the id ("#3" or "\"abc\""), empty for notifications
+	Found   bool     // disp: the id was in the pending map
+	Failed  bool     // wend: stream.Write returned an error
+	Pending []string // reg/disp/del: keys of the pending map after the step, sorted
+}
+
+var (
+	verifSeq  atomic.Int64
+	verifHook atomic.Pointer[func(VerifEvent)]
+)
+
+// SetVerifHook installs fn (nil removes it). fn runs inside the protecting lock.
+func SetVerifHook(fn func(VerifEvent)) {
+	if fn == nil {
+		verifHook.Store(nil)
+		return
+	}
+	verifHook.Store(&fn)
+}
+
+// VerifSeq draws the next value of the global order, for events the test harness records itself
+// (cancellations, the peer's replies, returns from Call) between the conn's own events.
+func VerifSeq() int64 { return verifSeq.Add(1) }
+
+func verifKeys(m map[ID]chan *Response) []string {
+	out := make([]string, 0, len(m))
+	for k := range m {
+		out = append(out, verifID(k))
+	}
+	sort.Strings(out)
+	return out
+}
+
+func verifID(id ID) string {
+	if id.name != "" {
+		return "\"" + id.name + "\""
+	}
+	return "#" + itoa(int64(id.number))
+}
+
+func itoa(v int64) string {
+	if v == 0 {
+		return "0"
+	}
+	neg := v < 0
+	if neg {
+		v = -v
+	}
+	var b [24]byte
+	i := len(b)
+	for v > 0 {
+		i--
+		b[i] = byte('0' + v%10)
+		v /= 10
+	}
+	if neg {
+		i--
+		b[i] = '-'
+	}
+	return string(b[i:])
+}
+
+// verifPending: ev is "reg" (after insert), "disp" (after lookup) or "del" (after delete);
+// the caller holds pendingMu.
+func verifPending(c *conn, ev string, id ID, found bool) {
+	fn := verifHook.Load()
+	if fn == nil {
+		return
+	}
+	(*fn)(VerifEvent{Seq: verifSeq.Add(1), Conn: c, Ev: ev, ID: verifID(id), Found: found, Pending: verifKeys(c.pending)})
+}
+
+// verifWrite: ev is "wbeg" (before stream.Write) or "wend" (after); the caller holds writeMu.
+func verifWrite(c *conn, ev string, msg Message, err error) {
+	fn := verifHook.Load()
+	if fn == nil {
+		return
+	}
+	e := VerifEvent{Seq: verifSeq.Add(1), Conn: c, Ev: ev, Failed: err != nil}
+	switch m := msg.(type) {
+	case *Call:
+		e.Kind, e.ID = "call", verifID(m.id)
+	case *Notification:
+		e.Kind = "notify"
+	case *Response:
+		e.Kind, e.ID = "response", verifID(m.id)
+	}
+	(*fn)(e)
+}
